@@ -8,7 +8,7 @@
 EXTENDS Daemon, Json, IOUtils
 
 CONSTANTS Cids, MaxLen, GenOn, Fam,    \* Fam: "all" | "c04" | "c05" | "c09" - which stimuli the generator mixes
-          MaxKill, MaxDetach, MaxEnv, MaxFail
+          MaxKill, MaxDetach, MaxEnv, MaxFail, NPS
 VARIABLES hist, bud
 
 MCCloud == [e \in Enis |-> IF e = 1 THEN [on |-> TRUE, as |-> {1, 2}] ELSE IF e = 2 THEN [on |-> TRUE, as |-> {3}] ELSE NoEni]
@@ -17,13 +17,14 @@ H(x) == hist' = IF GenOn THEN Append(hist, x) ELSE hist
 Keep == UNCHANGED bud
 Min(S) == CHOOSE x \in S : \A y \in S : x <= y
 
-PodStates == { [api |-> TRUE, loc |-> "run", sticky |-> FALSE, cached |-> FALSE],
-               [api |-> TRUE, loc |-> "run", sticky |-> TRUE, cached |-> FALSE],
-               [api |-> FALSE, loc |-> "none", sticky |-> FALSE, cached |-> FALSE],
-               [api |-> FALSE, loc |-> "none", sticky |-> TRUE, cached |-> TRUE],
-               [api |-> TRUE, loc |-> "exited", sticky |-> FALSE, cached |-> FALSE],
-               [api |-> FALSE, loc |-> "exited", sticky |-> FALSE, cached |-> FALSE],
-               [api |-> TRUE, loc |-> "none", sticky |-> FALSE, cached |-> FALSE] }
+PodStateSeq == << [api |-> FALSE, loc |-> "none", sticky |-> FALSE, cached |-> FALSE],
+                  [api |-> TRUE, loc |-> "exited", sticky |-> FALSE, cached |-> FALSE],
+                  [api |-> TRUE, loc |-> "none", sticky |-> FALSE, cached |-> FALSE],
+                  [api |-> FALSE, loc |-> "none", sticky |-> TRUE, cached |-> TRUE],
+                  [api |-> FALSE, loc |-> "exited", sticky |-> FALSE, cached |-> FALSE],
+                  [api |-> TRUE, loc |-> "run", sticky |-> TRUE, cached |-> FALSE],
+                  [api |-> TRUE, loc |-> "run", sticky |-> FALSE, cached |-> FALSE] >>
+PodStates == { PodStateSeq[i] : i \in 1..NPS }
 
 FreeRpc == IF \E r \in Rpcs : rpc[r].st = "none" THEN Min({ r \in Rpcs : rpc[r].st = "none" }) ELSE 0
 InUseBy(q) == (IF disk[q] # NoRec THEN {<<disk[q].e, disk[q].a>>} ELSE {})
